@@ -276,3 +276,50 @@ Proof.
   intros Hp Hm HP Hq Hn Hs. rewrite quadx_onaxis, driftx_onaxis by assumption. f_equal.
   unfold lez. rewrite Hs. simpl. rewrite lez_exact_is_drift_dz by assumption. reflexivity.
 Qed.
+
+(* ---------- (a) with the coded eps *)
+Lemma qc_cx_sx_Cf_Sf eps kc len : 0 <= eps -> kc <> 0 \/ 0 < eps ->
+  qc_cx (le0 kc) eps kc len = Cf (qc_keff eps kc) len /\ qc_sx (le0 kc) eps kc len = Sf (qc_keff eps kc) len.
+Proof. intros He Hnz. split; [apply qc_cx_Cf | apply qc_sx_Sf]; assumption. Qed.
+
+(** for pz = 0 and ANY eps >= 0 (the code: eps = 2^-52) one step acts on (x,px), (y,py) by the 2x2 blocks of the linear map of a
+    quadrupole of strength ke = k1 + eps (k1 > 0), k1 - eps (k1 < 0), except that the two entries a21 use k1 instead of ke:
+    the deviation from that linear map is exactly -/+ (ke - k1) * sx * x with |ke - k1| = eps *)
+Definition qx_ke (eps k1 : R) : R := if Rle_dec 0 k1 then k1 + eps else k1 - eps.
+Lemma qx_ke_dist eps k1 : 0 <= eps -> Rabs (qx_ke eps k1 - k1) = eps.
+Proof.
+  intros He. unfold qx_ke. destruct (Rle_dec 0 k1).
+  - replace (k1 + eps - k1) with eps by ring. apply Rabs_right; lra.
+  - replace (k1 - eps - k1) with (- eps) by ring. rewrite Rabs_Ropp. apply Rabs_right; lra.
+Qed.
+
+Lemma quadx_step_block_eps eps Lf k1 l p0c m E q : 0 <= eps -> Lf <> 0 -> k1 <> 0 -> bpz q = 0 ->
+  let ke := qx_ke eps k1 in let M := base_untilted l ke 0 E in let q' := quadx_step eps Lf k1 l p0c m q in
+  bx q' = c0 (c0 M) * bx q + c1 (c0 M) * bpx q /\
+  bpx q' = c0 (c1 M) * bx q + c1 (c1 M) * bpx q + (ke - k1) * c1 (c0 M) * bx q /\
+  by_ q' = c2 (c2 M) * by_ q + c3 (c2 M) * bpy q /\
+  bpy q' = c2 (c3 M) * by_ q + c3 (c3 M) * bpy q - (ke - k1) * c3 (c2 M) * by_ q.
+Proof.
+  intros He HL Hk Hpz. cbv zeta. unfold quadx_step, quadx_step_b. cbv zeta. rewrite Hpz.
+  assert (K : qs_k1 Lf k1 0 = k1) by (unfold qs_k1; field; lra). rewrite K.
+  unfold qc_a11, qc_a12, qc_a21, qc_a22. cbn [bx bpx by_ bpy].
+  rewrite !qc_cx_Cf, !qc_sx_Sf by (try assumption; left; lra).
+  assert (Kx : qc_keff eps (- k1) = qx_ke eps k1).
+  { unfold qc_keff, qx_ke. destruct (Rle_dec (- k1) 0), (Rle_dec 0 k1); try lra. }
+  assert (Ky : qc_keff eps k1 = - qx_ke eps k1).
+  { unfold qc_keff, qx_ke. destruct (Rle_dec k1 0), (Rle_dec 0 k1); try lra. }
+  rewrite Kx, Ky.
+  assert (Hke : qx_ke eps k1 <> 0) by (unfold qx_ke; destruct (Rle_dec 0 k1); lra).
+  unfold base_untilted, Maps.cx, Maps.sx, Maps.cy, Maps.sy, kx2, ky2. rewrite k1_guard_nz by assumption.
+  cbn [c0 c1 c2 c3 row]. unfold Rsqr. replace (qx_ke eps k1 + 0 * 0) with (qx_ke eps k1) by ring.
+  repeat split; unfold Rdiv; try ring.
+  - field.
+  - field.
+Qed.
+
+Lemma off_roundtrip_both ox oy t q : off_unset ox oy t (off_set ox oy t q) = q /\ off_set ox oy t (off_unset ox oy t q) = q.
+Proof. split; [apply off_roundtrip | apply off_roundtrip']. Qed.
+Lemma off_matrices ox oy t q :
+  bvec (off_set ox oy t q) = rmvec (rmmul (rot t) (mis_entry ox oy)) (bvec q) /\
+  bvec (off_unset ox oy t q) = rmvec (rmmul (mis_exit ox oy) (rot (- t))) (bvec q).
+Proof. split; [apply off_set_matrix | apply off_unset_matrix]. Qed.
